@@ -219,8 +219,29 @@ class Bicomplex(object):
         z02 = 0.5 * (z1 + 1j * z2) ** other
         return Bicomplex(z01 + z02, (z01 - z02) * 1j)
 
+    def _pow_integer(self, n):
+        """Integer power by repeated multiplication.
+
+        The detour through log and exp loses the small non-real components
+        when the real part of the base is negative (arg_c close to pi)."""
+        base = self
+        if n < 0:
+            z1, z2 = self.z1, self.z2
+            den = z1 * z1 + z2 * z2
+            base, n = Bicomplex(z1 / den, -z2 / den), -n
+        out = Bicomplex(np.ones(self.shape), np.zeros(self.shape))
+        while n > 0:
+            if n % 2 == 1:
+                out = out * base
+            n //= 2
+            if n > 0:
+                base = base * base
+        return out
+
     def __pow__(self, other):
-        # TODO: Check correctness
+        if (isinstance(other, (int, float, np.integer, np.floating))
+                and float(other).is_integer()):
+            return self._pow_integer(int(other))
         out = (self.log() * other).exp()
         non_invertible = np.abs(self.mod_c()) < 1e-15
         if non_invertible.any():
